@@ -33,12 +33,17 @@ ASSUMPTIONS = ["all expressions are valid; free-text inputs are pairwise differe
 BOUNDS = {"quick": {"max_nodes": 40, "max_depth": 2}, "thorough": {"max_nodes": 100, "max_depth": 3}}
 
 
+FC_WITHOUT_OWN_MESSAGE = vtree.FCS[-1]
+
+
 def fc_function(key, text):
     """pure function of (key, text seen); the message echoes the text"""
     if text is not None and text == f"ok{key}":
         return True, None
     if text and (len(text) + int(key)) % 5 == 0:
         return True, None
+    if key == FC_WITHOUT_OWN_MESSAGE:
+        return False, None  # no message of its own: ahbicht supplies the default message
     return False, f"[{key}] rejects {text!r}"
 
 
